@@ -252,7 +252,7 @@ pub struct LenAnd<X: Copy> {
     pub check: u32,
 }
 
-impl<X: Copy + Send + 'static, M, const R: usize> PtrMeta<[u8], M> for PadMeta<X, R> {
+unsafe impl<X: Copy + Send + 'static, M, const R: usize> PtrMeta<[u8], M> for PadMeta<X, R> {
     type PtrMetadata = LenAnd<X>;
     type Thin = ();
     fn to_thin(_tm: &'static M, fat: *const [u8]) -> *const () {
